@@ -5,6 +5,7 @@
 // Operand values are exact dyadic rationals num / 2^k (integer operands: k = 0).  The static type of every wrapped expression is
 // asserted at compile time against decltype of the plain one.
 #include <cmath>
+#include <limits>
 #include "vtypes.hpp"
 
 using namespace vh;
@@ -84,6 +85,71 @@ template<typename L, int LW> static std::string fneg_one(i128 an, int ak)
   return "ok " + show_val(-hl.get());
 }
 
+// ---- special values (signed zeros, infinities, NaN): comparisons and unary minus ----
+template<typename T> static bool mk_special(const std::string& tok, T& out)
+{
+  if constexpr (std::is_integral_v<T>) {
+    if (tok == "nan" || tok == "inf" || tok == "-inf" || tok == "-0") return false;
+    out = (T)parse_dec(tok); return true;
+  } else {
+    if (tok == "nan") out = std::numeric_limits<T>::quiet_NaN();
+    else if (tok == "inf") out = std::numeric_limits<T>::infinity();
+    else if (tok == "-inf") out = -std::numeric_limits<T>::infinity();
+    else if (tok == "-0") out = (T)-0.0;
+    else out = (T)(long long)parse_dec(tok);
+    return true;
+  }
+}
+template<typename F> static std::string show_special(F x)
+{
+  std::string ty = std::is_same_v<F, float> ? "f4 " : "f8 ";
+  if (x != x) return ty + "nan";
+  if (x == 0) return ty + (std::signbit(x) ? "-0" : "0");
+  if (std::isinf(x)) return ty + (x < 0 ? "-inf" : "inf");
+  return show_f(x);
+}
+template<typename V> static bool truth(const V& v)
+{
+  if constexpr (std::is_same_v<V, bool>) return v;
+  else return v.UNSAFE_unverified();
+}
+template<typename L, typename R, int LW, int RW> static std::string fcmp_one(int op, const std::string& ta, const std::string& tb)
+{
+  L a; R b;
+  if (!mk_special<L>(ta, a) || !mk_special<R>(tb, b)) return "badinput";
+  if (g_sb.get_sandbox_impl()->brk > (1u << 15)) g_sb.get_sandbox_impl()->brk = 16;
+  Holder<L, LW> hl(a); Holder<R, RW> hr(b);
+  auto& x = hl.get(); auto& y = hr.get();
+  bool r = op == 0 ? truth(x == y) : op == 1 ? truth(x != y) : op == 2 ? truth(x < y) : op == 3 ? truth(x <= y) : op == 4 ? truth(x > y) : truth(x >= y);
+  return std::string("ok ") + (r ? "1" : "0");
+}
+template<typename L, typename R> static std::string fcmp_w(int lw, int rw, int op, const std::string& ta, const std::string& tb)
+{
+  if constexpr (std::is_integral_v<L> && std::is_integral_v<R>) return "badop";
+  else {
+#define W(a, b) if (lw == a && rw == b) return fcmp_one<L, R, a, b>(op, ta, tb);
+    W(TAINTED, PLAIN) W(TAINTED, TAINTED) W(TAINTED, TVOL) W(TVOL, PLAIN) W(TVOL, TAINTED) W(TVOL, TVOL) W(PLAIN, TAINTED) W(PLAIN, TVOL)
+#undef W
+    return "badop";
+  }
+}
+template<typename L> static std::string fcmp_r(const std::string& rt, int lw, int rw, int op, const std::string& ta, const std::string& tb)
+{
+  if (rt == "float") return fcmp_w<L, float>(lw, rw, op, ta, tb);
+  if (rt == "double") return fcmp_w<L, double>(lw, rw, op, ta, tb);
+  if (rt == "int") return fcmp_w<L, int>(lw, rw, op, ta, tb);
+  return "badop";
+}
+template<typename L, int LW> static std::string fnegs_one(const std::string& ta)
+{
+  L a;
+  if (!mk_special<L>(ta, a)) return "badinput";
+  if (g_sb.get_sandbox_impl()->brk > (1u << 15)) g_sb.get_sandbox_impl()->brk = 16;
+  Holder<L, LW> hl(a);
+  auto r = -hl.get();
+  return "ok " + show_special(r.UNSAFE_unverified());
+}
+
 template<typename L, typename R> static std::string fbin_w(int lw, int rw, int op, i128 an, int ak, i128 bn, int bk)
 {
   if constexpr (std::is_integral_v<L> && std::is_integral_v<R>) return "badop";
@@ -120,6 +186,24 @@ int main()
         if (lt == "double") return fbin_r<double>(rt, lw, rw, op, an, ak, bn, bk);
         if (lt == "int") return fbin_r<int>(rt, lw, rw, op, an, ak, bn, bk);
         if (lt == "llong") return fbin_r<long long>(rt, lw, rw, op, an, ak, bn, bk);
+        return "badop";
+      }
+      if (t[0] == "fcmp" && t.size() == 6) {
+        static const char* const C[] = { "==", "!=", "<", "<=", ">", ">=" };
+        int op = -1; for (int i = 0; i < 6; i++) if (t[1] == C[i]) op = i;
+        int lw = wrap(t[2]), rw = wrap(t[3]);
+        if (op < 0 || lw < 0 || rw < 0) return "badop";
+        const std::string lt = tyof(t[2]), rt = tyof(t[3]);
+        if (lt == "float") return fcmp_r<float>(rt, lw, rw, op, t[4], t[5]);
+        if (lt == "double") return fcmp_r<double>(rt, lw, rw, op, t[4], t[5]);
+        if (lt == "int") return fcmp_r<int>(rt, lw, rw, op, t[4], t[5]);
+        return "badop";
+      }
+      if (t[0] == "fnegs" && t.size() == 3) {
+        int lw = wrap(t[1]); const std::string lt = tyof(t[1]);
+        if (lw != TAINTED && lw != TVOL) return "badop";
+        if (lt == "float") return lw == TAINTED ? fnegs_one<float, TAINTED>(t[2]) : fnegs_one<float, TVOL>(t[2]);
+        if (lt == "double") return lw == TAINTED ? fnegs_one<double, TAINTED>(t[2]) : fnegs_one<double, TVOL>(t[2]);
         return "badop";
       }
       if ((t[0] == "fincdec" && t.size() == 5) || (t[0] == "fneg" && t.size() == 4)) {
